@@ -49,7 +49,7 @@ def shard_methods(sh, part):
     import numpy as np
     from outrank.algorithms.synthetic_data_generators.cc_generator import CategoricalClassification
     rng, nprng = sh.rng('m', part), sh.nprng('m', part)
-    reps = 40 if sh.tier == 'quick' else 200
+    reps = 40 if sh.tier == 'quick' else 400
     nmax = 600 if sh.tier == 'quick' else 2000
     for t in range(reps):
         cc = CategoricalClassification(seed=rng.randrange(100))
